@@ -44,6 +44,8 @@ type Summary struct {
 	Returns map[int]bool // parameters a pointer-like result may alias
 	// WritesGlobals: module globals written (directly or through callees)
 	WritesGlobals map[string]string // global -> position of a witnessing store
+	// ReturnsGlobals: module globals a pointer-like result may point into
+	ReturnsGlobals map[string]bool
 }
 
 // Mod is the analysis over one program.
@@ -64,7 +66,7 @@ func NewRW(p *load.Program, asmWrites, asmReads map[string][]int) *Mod {
 	m := &Mod{P: p, Sum: map[*ssa.Function]*Summary{}, AsmWrites: asmWrites, roots: map[*ssa.Function]map[ssa.Value]*rootSet{}}
 	m.funcs = p.ModuleFuncs()
 	for _, fn := range m.funcs {
-		m.Sum[fn] = &Summary{Reads: map[int]bool{}, Writes: map[int]bool{}, Returns: map[int]bool{}, WritesGlobals: map[string]string{}}
+		m.Sum[fn] = &Summary{Reads: map[int]bool{}, Writes: map[int]bool{}, Returns: map[int]bool{}, WritesGlobals: map[string]string{}, ReturnsGlobals: map[string]bool{}}
 		if len(fn.Blocks) == 0 {
 			// assembly
 			name := load.FuncName(fn)
@@ -250,6 +252,9 @@ func (m *Mod) callResultRoots(fn *ssa.Function, tuple ssa.Value, idx int, memo m
 		if len(s.Returns) == 0 {
 			r.local = true
 		}
+		for g := range s.ReturnsGlobals {
+			r.globals[g] = true
+		}
 		for pi := range s.Returns {
 			if pi < len(t.args) {
 				r.add(m.rootsOf(fn, t.args[pi], memo, depth+1))
@@ -364,7 +369,7 @@ type Write struct {
 // analyse recomputes the summary of fn; returns true if it grew.
 func (m *Mod) analyse(fn *ssa.Function) bool {
 	s := m.Sum[fn]
-	before := len(s.Writes) + len(s.Returns) + len(s.WritesGlobals) + len(s.Reads)
+	before := len(s.Writes) + len(s.Returns) + len(s.WritesGlobals) + len(s.Reads) + len(s.ReturnsGlobals)
 	memo := map[ssa.Value]*rootSet{}
 	m.roots[fn] = memo
 	live := load.LiveBlocks(fn)
@@ -407,6 +412,13 @@ func (m *Mod) analyse(fn *ssa.Function) bool {
 						for i := range rs.params {
 							s.Returns[i] = true
 						}
+						switch r.Type().Underlying().(type) {
+						case *types.Pointer, *types.Slice, *types.Map:
+							// (sentinel errors are interface values loaded from globals: immutable, not storage)
+							for g := range rs.globals {
+								s.ReturnsGlobals[g] = true
+							}
+						}
 					}
 				}
 			case ssa.CallInstruction:
@@ -414,7 +426,7 @@ func (m *Mod) analyse(fn *ssa.Function) bool {
 			}
 		}
 	}
-	return len(s.Writes)+len(s.Returns)+len(s.WritesGlobals)+len(s.Reads) != before
+	return len(s.Writes)+len(s.Returns)+len(s.WritesGlobals)+len(s.Reads)+len(s.ReturnsGlobals) != before
 }
 
 func (m *Mod) callEffects(fn *ssa.Function, instr ssa.CallInstruction, memo map[ssa.Value]*rootSet, mark func(*rootSet, token.Pos)) {
@@ -429,10 +441,16 @@ func (m *Mod) callEffects(fn *ssa.Function, instr ssa.CallInstruction, memo map[
 				// append writes into the spare capacity of its first argument: when that slice is rooted
 				// at a package-level variable every caller shares the backing array (a data race and a
 				// cross-talk between callers), whatever is done with the result
-				if rs := m.rootsOf(fn, common.Args[0], memo, 0); len(rs.globals) > 0 {
+				// the same holds for a slice handed in by the caller: append(param[:n], ...) writes behind
+				// the caller's data whenever the caller's buffer has spare capacity (a key stored in front
+				// of another key)
+				if rs := m.rootsOf(fn, common.Args[0], memo, 0); len(rs.globals) > 0 || len(rs.params) > 0 {
 					g := newRoots()
 					for k := range rs.globals {
 						g.globals[k] = true
+					}
+					for k := range rs.params {
+						g.params[k] = true
 					}
 					mark(g, instr.Pos())
 				}
